@@ -17,6 +17,7 @@ def run(ctx):
     E.r_cycle_trigger(prog, rep)
     E.r_waitfor_coverage(prog, rep)
     E.r_scan_waits(prog, rep)
+    E.r_request_flags(prog, rep)
     E.r_dfs_pairing(prog, rep)
     E.r_cancel_on_exit(prog, rep)
 from rules.engine_variants import C07 as VARIANTS  # noqa: E402
